@@ -348,7 +348,7 @@ func c02TieInputs(r *Rand) []*c02Input {
 	add("undefined-props-several", wf(c02WfHead+c02Job("j", "      - run: echo ${{ github.nope1 }} ${{ github.nope2 }}\n      - run: echo ${{ github.nope3 && runner.nope4 && job.nope5 }}\n      - run: echo ${{ unknown1() || unknown2(unknown3) }}\n")))
 	add("config-variables", map[string]string{
 		".github/workflows/w.yml": c02WfHead + c02Job("j", "      - run: echo ${{ vars.X1 }} ${{ vars.X2 }}\n      - run: echo ${{ vars.X3 || vars.X4 }}\n"),
-		".github/actionlint.yaml":  "config-variables: [B, A, D, C, F, E]\nself-hosted-runner:\n  labels: [l3, l1, l2]\n",
+		".github/actionlint.yaml": "config-variables: [B, A, D, C, F, E]\nself-hosted-runner:\n  labels: [l3, l1, l2]\n",
 	})
 	add("deprecated-commands", wf(c02WfHead+c02Job("j", "      - run: |\n          echo '::set-output name=a::b'\n          echo '::save-state name=a::b'\n          echo '::set-env name=a::b'\n          echo '::add-path::b'\n")))
 	add("workflow-call-problems", wf("on:\n  workflow_call:\n    inputs:\n      a:\n        type: nope\n      b:\n        type: string\n        default: 1\n      c:\n        type: number\n        default: x\n    secrets:\n      s1:\n        foo: bar\n    outputs:\n      o1:\n        description: x\n      o2:\n        description: y\njobs:\n"+c02Job("j", "      - run: echo ${{ inputs.zz1 }} ${{ inputs.zz2 }}\n")))
@@ -559,7 +559,9 @@ func c02CheckLib(c *Case, in *c02Input, reps int, tag string) {
 }
 
 // c02CheckCLI runs the real CLI under GOMAXPROCS / delay variations and compares stdout + status.
-func c02CheckCLI(c *Case, in *c02Input, reps int, extraArgs []string) { c02CheckCLIBin(c, in, reps, extraArgs, "") }
+func c02CheckCLI(c *Case, in *c02Input, reps int, extraArgs []string) {
+	c02CheckCLIBin(c, in, reps, extraArgs, "")
+}
 
 func c02CheckCLIBin(c *Case, in *c02Input, reps int, extraArgs []string, binName string) {
 	root := mkScratch("c02cli")
